@@ -8,7 +8,7 @@
    so a call that raises leaves an entry as well (counted exactly by C20_entries_count);
    _init_wrapper records after, so a failed __init__ leaves none. *)
 From Coq Require Import ZArith List Bool String.
-From IRV Require Import Base.Exn C20.Types Gen.C20Gen C20.Model C20.Proofs C20.Proofs2.
+From IRV Require Import Base.Exn C20.Types Gen.C20Gen C20.Model C20.Proofs C20.Proofs2 C20.Hooks.
 Import ListNotations.
 Open Scope list_scope.
 
@@ -88,6 +88,52 @@ Theorem C20_entries_count :
   + list_sum (map (fun c => n_pre (fst c)) (filter (fun c => negb (snd c)) (calls H V vnone b h))).
 Proof. intros. apply count_stmt. exact C20_records_once. Qed.
 Print Assumptions C20_entries_count.
+
+(* ------------------------------------------------------------------ hooks (Journal.add_hook) *)
+
+(* HOOKS, transparent.  With any number of hooks on any journals, as long as no hook raises: the run
+   equals the plain run (heap, results, exception), every journal contains exactly prog_entries, and
+   every hook of journal j is called exactly once per entry of j, with that entry, in order. *)
+Theorem C20_hooks_transparent :
+  forall (H V : Type) (vnone : V) (hooks : jid -> list hook) (p : prog H V) (stack : list jid) (st : state) (h : H),
+  quiet hooks -> NoDup stack -> wf H V stack p -> (forall s, st_tbl st s = tbl_of stack s) ->
+  let '(st', h', rs, o, l) := runH H V vnone hooks p st h in
+  run_plain H V vnone p h = (h', rs, o) /\ st_wrong st' = st_wrong st
+  /\ (forall j, recs_of j l = prog_entries H V vnone j stack p h)
+  /\ (forall j k, k < List.length (hooks j) -> calls_of j k l = prog_entries H V vnone j stack p h).
+Proof. intros. apply (hooks_transparent_stmt H V vnone C20_lists_ok); assumption. Qed.
+Print Assumptions C20_hooks_transparent.
+
+(* HOOKS, restore.  For EVERY hook behaviour (raising included) the classes and the current journal
+   are restored exactly as without hooks. *)
+Theorem C20_restore_hooks :
+  forall (H V : Type) (vnone : V) (hooks : jid -> list hook) (p : prog H V) (active : list jid) (st : state) (h : H),
+  wf H V active p ->
+  let '(st', _, _, _, _) := runH H V vnone hooks p st h in
+  (forall s, st_tbl st' s = st_tbl st s) /\ st_cur st' = st_cur st.
+Proof. intros. apply (restore_hooks_stmt H V vnone C20_lists_ok hooks p active); assumption. Qed.
+Print Assumptions C20_restore_hooks.
+
+(* The full statement "for every hook behaviour the operation's result/exception and the IR state are
+   those of the un-journaled operation" is FALSE for the code as it is: the exception of a hook is not
+   caught by Journal.record, so under a record-first wrapper the original is never called.  Witness:
+   `with j (hook raising RuntimeError): g.sort()` — plain: heap changed, returns; journaled: heap
+   untouched, RuntimeError.  Replayed on the implementation on every run (probe `raising-hook`). *)
+Theorem C20_raising_hook_refuted :
+  exists (hooks : jid -> list hook) (p : prog nat unit),
+    wf nat unit [] p /\
+    let '(_, h', rs, o, _) := runH nat unit tt hooks p st0 0 in
+    run_plain nat unit tt p 0 = (1, [Ok tt], None) /\ (h', rs, o) = (0, [Raise RuntimeError], None).
+Proof.
+  exists (fun _ => [fun _ => Some RuntimeError]).
+  exists (PWith 1 (PDo (Invoke "_core.Graph.sort" 1%Z 1%Z (Prim S (Ret (Ok tt))) (fun r => Ret r)) (fun _ => PRet)) PRet).
+  vm_compute. intuition.
+Qed.
+Print Assumptions C20_raising_hook_refuted.
+
+(* quiet is satisfiable by a non-trivial hook family *)
+Example quiet_nontrivial : quiet (fun j => if Nat.eqb j 1 then [fun _ => None; fun _ => None] else []).
+Proof. intros j f e. destruct (Nat.eqb j 1); simpl; intuition; subst; reflexivity. Qed.
 
 (* The hypotheses are satisfiable by non-trivial programs: three nested journals, an operation
    that raises inside the innermost block, the exception caught two levels up. *)
